@@ -1,12 +1,14 @@
 """C19 Stop-and-restart preserves the workflow state."""
 from __future__ import annotations
 
+import os
+
 from ..core import Ctx, HarnessError, Result
 from ..sched import catalogue as cat
 from ..sched.catalogue import A, AND, E, N, spec_from
 from ..sched.monitors import PoolInvariants, SubmitOnce
 from ..sched.mon_c19 import (
-    RestartGraphFaithful, RestartState, StopProfile)
+    COUNTS, RestartGraphFaithful, RestartState, StopProfile)
 from ..sched.run import explore_all, replay_violation, result_from
 
 LEVEL = 'model_checking'
@@ -82,17 +84,57 @@ def make_factory(spec, tier='quick'):
     return factory
 
 
+NEEDED = [
+    'restarts compared',
+    'restart after stopped:REQUEST_CLEAN',
+    'restart after stopped:REQUEST_NOW',
+    'restart after stopped:REQUEST_NOW_NOW',
+    'restart after stopped:AUTO',
+    'restart after jobs progressed while down',
+    'restored task that was waiting',
+    'restored task that was preparing',
+    'restored task that was submitted',
+    'restored task that was running',
+    'preparing task submitted after restart',
+    'restored held task',
+    'restored task with merged flows',
+    'restored task with a satisfied xtrigger',
+    'restored task with partially satisfied prerequisites',
+    'restart with a hold point',
+    'restart with a stop point',
+    'restart with a stop task',
+    'restart with a broadcast',
+    'restart with flow counter > 1',
+]
+
+
 def run(ctx: Ctx) -> Result:
     specs = catalogue(ctx.tier)
+    only = os.environ.get('VERIF_ONLY')     # development aid (mutant runs)
+    if only:
+        specs = [s for s in specs if s['name'] in only.split(',')]
+    COUNTS.collect(ctx.scratch)
     st = explore_all(
         ctx, [make_factory(s, ctx.tier) for s in specs],
-        max_states=ctx.pick(6000, 60000), max_seconds=ctx.pick(110, 1700))
+        max_states=ctx.pick(6000, 60000),
+        max_seconds=int(os.environ.get(
+            'VERIF_MAX_SECONDS', ctx.pick(110, 1700))))
+    counts = COUNTS.collect(ctx.scratch)
+    if not st.violations and not st.error and not st.capped:
+        missing = [k for k in NEEDED if not counts.get(k)]
+        if missing and not only:
+            raise HarnessError(
+                f'vacuous: never observed in the whole exploration: '
+                f'{missing}')
     return result_from(
         ctx, st, prop='C19',
         bounds={'workflows': [s['name'] for s in specs],
                 'stop modes': list(STOPS),
-                'restarts per execution': ctx.pick(1, 2)},
-        assumptions=ASSUME, min_states=100)
+                'stop offered at': 'every main-loop boundary',
+                'restarts per execution': ctx.pick(
+                    '1 (2 in the stop-task workflow)', 2)},
+        assumptions=ASSUME, min_states=100,
+        extra_cov={'observed': dict(sorted(counts.items()))})
 
 
 def replay(payload):
